@@ -79,6 +79,21 @@ Set2DOK(r) ==
              /\ r.full = [x \in 1..r.nx |-> [y \in 1..r.ny |->
                             IF InSeq(x - 1, sx) /\ InSeq(y - 1, sy) THEN r.v ELSE V2(x - 1, y - 1)]]
 
+PosOf(x, sq) == CHOOSE q \in 1..Len(sq) : sq[q] = x
+\* a[kx, ky] = <1-D array of srclen values 500, 501, ...>: consumed with x varying fastest over the selected block
+Set2D1OK(r) ==
+    LET same == [x \in 1..r.nx |-> [y \in 1..r.ny |-> V2(x - 1, y - 1)]] IN
+    IF Bad(r.nx, r.kx, r.ix) \/ Bad(r.ny, r.ky, r.iy) THEN r.exc = 1 /\ r.full = same
+    ELSE LET sx == Sel(r.nx, r.kx, r.ix)  sy == Sel(r.ny, r.ky, r.iy) IN
+         IF r.srclen # Len(sx) * Len(sy) THEN r.exc = 1 /\ r.full = same
+         ELSE /\ r.exc = 0
+              /\ r.full = [x \in 1..r.nx |-> [y \in 1..r.ny |->
+                             IF InSeq(x - 1, sx) /\ InSeq(y - 1, sy)
+                             THEN 500 + (PosOf(y - 1, sy) - 1) * Len(sx) + (PosOf(x - 1, sx) - 1)
+                             ELSE V2(x - 1, y - 1)]]
+\* an index that is not a pair raises, whatever the source, and changes nothing
+Set2DBadOK(r) == r.exc = 1 /\ r.full = [x \in 1..2 |-> [y \in 1..2 |-> V2(x - 1, y - 1)]]
+
 \* 2-D operands must have the same shape (not merely the same number of elements);
 \* setmask writes v where mask # 0; ifelse keeps a where mask # 0, else the scalar; add is element-wise
 Mask2DOK(r) ==
@@ -107,7 +122,6 @@ StrOK(r) ==
 \* sequences of stores into one string array, contents read back after every operation: each store writes exactly the
 \* positions the same statement selects on a Python list (the string tables of source and destination never matter);
 \* a store whose source has the wrong length raises and changes nothing
-PosOf(x, sq) == CHOOSE q \in 1..Len(sq) : sq[q] = x
 StrStep(cur, op) ==
     LET n == Len(cur) IN
     CASE op.k = "set" -> [ok |-> TRUE, v |-> [i \in 1..n |-> IF i - 1 = PyIndex(n, op.i) THEN op.v ELSE cur[i]]]
